@@ -29,7 +29,8 @@ Conventions
   condition of if_else / if_swap in {0, 1}; values are a GFpX polynomial, an int array or a secure array (ints, lists and
   secure field elements must raise TypeError).
 * PRSS keys are set from a hash of the arguments before every call: a case and its replay are deterministic.
-* A call that does not return within CALL_LIMIT_S seconds is reported as a hang (exception CallTimeout).
+* A call that does not return within CALL_LIMIT_S seconds (HANG_LIMIT_S in the natives whose listed class is non-termination) is
+  reported as a hang (exception CallTimeout).
 * Failing classes found on the unchanged tree are isolated in the natives of section "classes of failing inputs": the
   contract stays strict, the check returns ('class', key, message) exactly for the delimited class.
 """
@@ -39,7 +40,8 @@ from contracts.gfpx import (r_trim, r_add, r_sub, r_neg, r_mul, r_divmod, r_mod,
                             r_is_irr, r_to_int)
 
 PRIMES = (2, 3, 5, 7, 31, 257)
-CALL_LIMIT_S = 4.0
+CALL_LIMIT_S = 40.0          # generous: the check shares the machine with other pools (the slowest call takes about 1 s alone)
+HANG_LIMIT_S = 5.0           # natives whose listed class of failing inputs is non-termination (calls that return take milliseconds)
 FN = 'mpyc.secpols.secpoly.'
 
 
@@ -50,6 +52,7 @@ def T(tier, q, th): return q if tier == 'quick' else th
 def _rt():
     if 'mpyc.runtime' not in sys.modules:
         os.environ.pop('MPYC_NONUMPY', None)          # C38 is about the NumPy code path (replays are started with MPYC_NONUMPY=1)
+        for v in ('OPENBLAS_NUM_THREADS', 'OMP_NUM_THREADS', 'MKL_NUM_THREADS'): os.environ.setdefault(v, '1')          # 16 pool processes: no BLAS thread pools
         sys.argv = [sys.argv[0] if sys.argv else 'x', '--no-log']      # mpyc.runtime parses sys.argv at import time
     from mpyc.runtime import mpc
     from mpyc.numpy import np
@@ -67,21 +70,27 @@ def _seed(mpc, args):
     mpc._program_counter[0] = 0
 
 
+def _types(p):
+    mpc, np, secpoly, GFpX = _rt()
+    return mpc.SecFld(p), GFpX(p), mpc.SecInt(16)
+
+
 class CallTimeout(Exception):
     pass
 
 
-def _guarded(f, *args):
+def _guarded(f, *args, limit=None):
     """run f(*args) with a wall-clock limit; the task-level alarm of lib.common is restored afterwards"""
+    limit = limit or CALL_LIMIT_S
     import threading
     if threading.current_thread() is not threading.main_thread():
         return f(*args)
 
     def on_alarm(signum, frame):
-        raise CallTimeout(f'call did not return within {CALL_LIMIT_S} s')
+        raise CallTimeout(f'call did not return within {limit} s')
     old_h = signal.signal(signal.SIGALRM, on_alarm)
     t0 = time.time()
-    old = signal.setitimer(signal.ITIMER_REAL, CALL_LIMIT_S)
+    old = signal.setitimer(signal.ITIMER_REAL, limit)
     try:
         return f(*args)
     finally:
@@ -175,13 +184,15 @@ def trim(a):
     return r_trim(list(a))
 
 
-def mk_call(body):
+def mk_call(body, limit=None):
     """body(ctx, p, *args) -> list of (label, thunk)"""
     def call(p, *args):
+        _rt(); _types(p)          # imports and type creation are not part of the timed call
+
         def go():
             c = Ctx(p, (p,) + args)
             return c.run(body(c, p, *args))
-        return _guarded(go)
+        return _guarded(go, limit=limit)
     return call
 
 
@@ -347,10 +358,6 @@ def all_pairs(p, hi_a, hi_b, b_nonzero=False, lo=0):
             yield (p, a, b)
 
 
-def chain(*gens):
-    return lambda tier: itertools.chain.from_iterable(g(tier) if callable(g) else g for g in gens)
-
-
 # ===================================================================== 1. construction, copy, output, input, coercion
 def body_construct(c, p, a):
     np, S, F, P = c.np, c.secpoly, c.F, c.P
@@ -420,10 +427,10 @@ def ck_ring(args, val, exc):
 
 
 def in_ring(tier):
-    yield from all_pairs(2, T(tier, 3, 4), T(tier, 3, 4))
-    yield from all_pairs(3, T(tier, 2, 3), T(tier, 2, 3))
-    if tier != 'quick': yield from all_pairs(5, 2, 2)
-    yield from pairs(21, (5, 7, 31, 257), 60, capped=False)(tier)
+    yield from all_pairs(2, T(tier, 4, 5), T(tier, 4, 5))
+    yield from all_pairs(3, 3, 3)
+    yield from all_pairs(5, 2, T(tier, 2, 3))
+    yield from pairs(21, (5, 7, 31, 257), 100, capped=False)(tier)
 
 
 # ===================================================================== 3. shifts, truncate, indexing
@@ -457,10 +464,12 @@ def in_singles_free(tier):
 
 
 # ===================================================================== 4. division with remainder (share lengths < p, b != 0)
-def body_div(c, p, a, b):
+def body_div(c, p, a, b, full):
     S = c.secpoly
     f, g, A, B = c.sp(a), c.sp(b), c.pub(a), c.pub(b)
-    return [('f//g', lambda: f // g), ('f%g', lambda: f % g), ('divmod(f,g)', lambda: divmod(f, g)), ('mod(f,g)', lambda: S.mod(f, g)),
+    core = [('f//g', lambda: f // g), ('f%g', lambda: f % g), ('divmod(f,g)', lambda: divmod(f, g))]
+    if not full: return core
+    return core + [('mod(f,g)', lambda: S.mod(f, g)),
             ('A//g', lambda: A // g), ('A%g', lambda: A % g), ('divmod(A,g)', lambda: divmod(A, g)),
             ('f//B', lambda: f // B), ('f%B', lambda: f % B), ('divmod(f,B)', lambda: divmod(f, B)),
             ('f//arr', lambda: f // c.arr(b)), ('f%sarr', lambda: f % c.sarr(b)), ('sarr//g', lambda: c.sarr(a) // g)
@@ -468,24 +477,25 @@ def body_div(c, p, a, b):
 
 
 def ck_div(args, val, exc):
-    p, a, b = args
+    p, a, b, full = args
     A, B, GA, GB = trim(a), trim(b), gp(p, a), gp(p, b)
     rq, rr = r_divmod(p, A, B)
     q = both('a//b', cl(GA // GB), rq); r = both('a%b', cl(GA % GB), rr)
     assert (cl(divmod(GA, GB)[0]), cl(divmod(GA, GB)[1])) == (q, r)
     QR = XT(XP(q), XP(r))
-    w = [('f//g', XP(q)), ('f%g', XP(r)), ('divmod(f,g)', QR), ('mod(f,g)', XP(r)), ('A//g', XP(q)), ('A%g', XP(r)), ('divmod(A,g)', QR),
+    w = [('f//g', XP(q)), ('f%g', XP(r)), ('divmod(f,g)', QR)]
+    if full: w += [('mod(f,g)', XP(r)), ('A//g', XP(q)), ('A%g', XP(r)), ('divmod(A,g)', QR),
          ('f//B', XP(q)), ('f%B', XP(r)), ('divmod(f,B)', QR), ('f//arr', XP(q)), ('f%sarr', XP(r)), ('sarr//g', XP(q))] + ([('f==q*g+r', XF(1, p))] if a else [])
     return compare(val, exc, w)
 
 
 def in_div(tier):
-    yield from all_pairs(3, 2, 2, b_nonzero=True)
-    yield from all_pairs(5, 2, 2, b_nonzero=True)
+    yield from (x + (1,) for x in all_pairs(3, 2, 2, b_nonzero=True))
+    yield from (x + (0,) for x in all_pairs(5, 2, 2, b_nonzero=True))
     if tier != 'quick':
-        yield from all_pairs(5, 3, 2, b_nonzero=True, lo=3)
-        yield from all_pairs(7, 2, 2, b_nonzero=True)
-    yield from pairs(41, (5, 7, 31, 257), 70, b_nonzero=True)(tier)
+        yield from (x + (0,) for x in all_pairs(5, 3, 2, b_nonzero=True, lo=3))
+        yield from (x + (0,) for x in all_pairs(7, 2, 2, b_nonzero=True))
+    yield from (x + (1,) for x in pairs(41, (5, 7, 31, 257), 70, b_nonzero=True)(tier))
 
 
 # ===================================================================== 5. gcd, gcdext, invert
@@ -510,7 +520,7 @@ def in_gcd(tier):
     yield from (x for x in all_pairs(3, 2, 2) if _not_both_zero(*x))
     yield from (x for x in all_pairs(5, 2, 2) if _not_both_zero(*x))
     if tier != 'quick': yield from (x for x in all_pairs(7, 2, 2) if _not_both_zero(*x))
-    yield from pairs(51, (5, 7, 31, 257), 60, filt=_not_both_zero)(tier)
+    yield from pairs(51, (5, 7, 31, 257), 100, filt=_not_both_zero)(tier)
 
 
 def body_gcdext(c, p, a, b):
@@ -559,7 +569,7 @@ def in_gcdext(tier):
     yield from (x for x in all_pairs(3, 2, 2) if _coprime(*x))
     yield from (x for x in all_pairs(5, 2, 2) if _coprime(*x))
     if tier != 'quick': yield from (x for x in all_pairs(7, 2, 2) if _coprime(*x))
-    yield from pairs(61, (5, 7, 31, 257), 60, filt=_coprime)(tier)
+    yield from pairs(61, (5, 7, 31, 257), 120, filt=_coprime)(tier)
 
 
 def in_gcdext_common(tier):
@@ -589,7 +599,7 @@ def _invertible(p, a, b): return bool(trim(b)) and r_gcd(p, trim(a), trim(b)) ==
 def in_invert(tier):
     yield from (x for x in all_pairs(3, 2, 2, lo=1) if _invertible(*x))
     yield from (x for x in all_pairs(5, 2, 2, lo=1) if _invertible(*x))
-    yield from pairs(71, (5, 7, 31, 257), 60, filt=_invertible)(tier)
+    yield from pairs(71, (5, 7, 31, 257), 120, filt=_invertible)(tier)
 
 
 # ===================================================================== 6. powers
@@ -626,9 +636,9 @@ def _pm_ok(p, a, b, n):
 
 def in_powmod(tier):
     ns = T(tier, (0, 1, 2, 3, 5, -1, -2), (0, 1, 2, 3, 4, 5, 6, 7, 11, -1, -2, -3, -5))
-    for p, h in ((5, 2), (7, 2)):
+    for p, h in T(tier, ((5, 2),), ((5, 2), (7, 2))):
         for (_, a, b) in all_pairs(p, h, h, b_nonzero=True, lo=1):
-            for n in ns:
+            for n in T(tier, (0, 1, 2, 3, -1), ns):
                 if _pm_ok(p, a, b, n): yield (p, a, b, n)
     for (p, a, b) in pairs(81, (7, 31, 257), 40, b_nonzero=True)(tier):
         for n in ns:
@@ -729,34 +739,38 @@ def in_degree(tier):
 
 
 # ===================================================================== 9. comparisons
-def body_cmp(c, p, a, b):
+def body_cmp(c, p, a, b, full):
     import operator as o
     f, g, A, B = c.sp(a), c.sp(b), c.pub(a), c.pub(b)
-    it = [('==', lambda: f == g), ('!=', lambda: f != g), ('f==f', lambda: f == f), ('f!=f+0', lambda: f != f + c.sp((0,) * (len(a) + 1))), ('f==arr', lambda: f == c.arr(b)), ('f!=sarr', lambda: f != c.sarr(b))]
-    if p > 2: it += [('f==B', lambda: f == B), ('f!=B', lambda: f != B)]
+    it = [('==', lambda: f == g), ('!=', lambda: f != g), ('f==f', lambda: f == f), ('f!=f+0', lambda: f != f + c.sp((0,) * (len(a) + 1)))]
+    if full: it += [('f==arr', lambda: f == c.arr(b)), ('f!=sarr', lambda: f != c.sarr(b))]
+    if full and p > 2: it += [('f==B', lambda: f == B), ('f!=B', lambda: f != B)]
     if max(len(a), len(b)) < p:
         for nm, op in (('<', o.lt), ('<=', o.le), ('>', o.gt), ('>=', o.ge)):
-            it += [(f'f{nm}g', (lambda op: lambda: op(f, g))(op)), (f'f{nm}arr', (lambda op: lambda: op(f, c.arr(b)))(op))]
-            if p > 2: it += [(f'f{nm}B', (lambda op: lambda: op(f, B))(op)), (f'A{nm}g', (lambda op: lambda: op(A, g))(op))]
+            it += [(f'f{nm}g', (lambda op: lambda: op(f, g))(op))]
+            if full: it += [(f'f{nm}arr', (lambda op: lambda: op(f, c.arr(b)))(op))]
+            if full and p > 2: it += [(f'f{nm}B', (lambda op: lambda: op(f, B))(op)), (f'A{nm}g', (lambda op: lambda: op(A, g))(op))]
         it += [('f<f', lambda: f < f), ('f<=f', lambda: f <= f)]
     return it
 
 
 def ck_cmp(args, val, exc):
     import operator as o
-    p, a, b = args
+    p, a, b, full = args
     A, B, GA, GB = trim(a), trim(b), gp(p, a), gp(p, b)
     ia, ib = r_to_int(p, A), r_to_int(p, B)          # lexicographic order = order of the base-p encodings
     eq, ne = XF(int(A == B), p), XF(int(A != B), p)
     if (GA == GB) != (A == B) or (GA != GB) != (A != B): raise OracleDisagreement('==: GFpX and coefficient lists differ')
-    w = [('==', eq), ('!=', ne), ('f==f', XF(1, p)), ('f!=f+0', XF(0, p)), ('f==arr', eq), ('f!=sarr', ne)]
-    if p > 2: w += [('f==B', eq), ('f!=B', ne)]
+    w = [('==', eq), ('!=', ne), ('f==f', XF(1, p)), ('f!=f+0', XF(0, p))]
+    if full: w += [('f==arr', eq), ('f!=sarr', ne)]
+    if full and p > 2: w += [('f==B', eq), ('f!=B', ne)]
     if max(len(a), len(b)) < p:
         for nm, op in (('<', o.lt), ('<=', o.le), ('>', o.gt), ('>=', o.ge)):
             t = int(bool(op(GA, GB)))
             if t != int(op(ia, ib)): raise OracleDisagreement(f'{nm}: GFpX gives {t}, integer encodings give {op(ia, ib)}')
-            w += [(f'f{nm}g', XF(t, p)), (f'f{nm}arr', XF(t, p))]
-            if p > 2: w += [(f'f{nm}B', XF(t, p)), (f'A{nm}g', XF(t, p))]
+            w += [(f'f{nm}g', XF(t, p))]
+            if full: w += [(f'f{nm}arr', XF(t, p))]
+            if full and p > 2: w += [(f'f{nm}B', XF(t, p)), (f'A{nm}g', XF(t, p))]
         w += [('f<f', XF(0, p)), ('f<=f', XF(1, p))]
     return compare(val, exc, w)
 
@@ -770,12 +784,12 @@ def _cmp_dom(x):
 
 
 def in_cmp(tier):
-    yield from filter(_cmp_dom, all_pairs(2, 2, 2))
-    yield from filter(_cmp_dom, all_pairs(3, 2, 2))
-    yield from filter(_cmp_dom, all_pairs(5, T(tier, 2, 3), 2))
-    if tier != 'quick': yield from filter(_cmp_dom, all_pairs(7, 2, 2))
-    yield from filter(_cmp_dom, pairs(111, (5, 7, 31, 257), 60)(tier))
-    yield from filter(_cmp_dom, pairs(112, (2, 3, 5), 20, capped=False, maxlen=6)(tier))          # == and != only beyond length p - 1
+    yield from (x + (1,) for x in filter(_cmp_dom, all_pairs(2, 2, 2)))
+    yield from (x + (1,) for x in filter(_cmp_dom, all_pairs(3, 2, 2)))
+    yield from (x + (0,) for x in filter(_cmp_dom, all_pairs(5, T(tier, 2, 3), 2)))
+    if tier != 'quick': yield from (x + (0,) for x in filter(_cmp_dom, all_pairs(7, 2, 2)))
+    yield from (x + (1,) for x in filter(_cmp_dom, pairs(111, (5, 7, 31, 257), 60)(tier)))
+    yield from (x + (1,) for x in filter(_cmp_dom, pairs(112, (2, 3, 5), 20, capped=False, maxlen=6)(tier)))          # == and != only beyond length p - 1
 
 
 # ===================================================================== 10. irreducibility
@@ -861,7 +875,7 @@ def in_select(tier):
 def _variants(p, a):
     """other shares of the same length: all ones, and a with its top coefficient cleared / set"""
     if not a: return [a]
-    return [a, (1,) * len(a), a[:-1] + (0,), a[:-1] + (1,), (0,) * (len(a) - 1) + (1,)]
+    return list(dict.fromkeys([a, (1,) * len(a), a[:-1] + (0,), (0,) * (len(a) - 1) + (1,)]))
 
 
 def body_lengths(c, p, a, b):
@@ -892,8 +906,7 @@ def body_lengths(c, p, a, b):
     def rows():
         out = []
         for va in _variants(p, a):
-            for vb in _variants(p, b):
-                if not trim(vb): continue          # divisor nonzero
+            for vb in (v for v in _variants(p, b) if trim(v)):          # divisor nonzero
                 f, g = c.sp(va), c.sp(vb)
                 out.append(((va, vb), tuple((nm, lens(th())) for nm, th in ops(f, g))))
         return Plain(out)
@@ -969,14 +982,6 @@ def in_errors(tier):
 
 
 # ===================================================================== classes of failing inputs (unchanged tree), isolated
-CALL_HANG = 'CallTimeout'
-
-
-def _hang(val, exc, label=None):
-    if isinstance(exc, CallTimeout): return True
-    return False
-
-
 def body_monic_zero(c, p, a):
     return [('monic', lambda: c.sp(a).monic())]
 
@@ -1038,10 +1043,12 @@ def ck_eval_large(args, val, exc):
     p, a, x = args
     e = _ev(p, trim(a), x)
     m = compare(val, exc, [('f(x)', XF(e, p)), ('f(sec x)', XF(e, p))])
-    if m and not exc and m.startswith('f(x):') and abs(x) ** (len(a) - 1) >= 2 ** 63 and val[0][1][0] == 'F' and tuple(val[1][1]) == ('F', e):
-        return ('class', 'public-x-with-|x|^(len-1)>=2^63:wrong-value',
-                f'evaluation at the PUBLIC point x = {x} of a share of length {len(a)} over GF({p}) gives {val[0][1][1]}, gfpx and evaluation at the secret point give {e} '
-                f'(np.vander powers of x overflow int64)')
+    if (m and not exc and m.startswith('f(x):') and abs(x) ** (len(a) - 1) >= 2 ** 63 and tuple(val[1][1]) == ('F', e)
+            and (val[0][1][0] == 'F' or val[0][1][:2] in (('exc', 'TypeError'), ('exc', 'OverflowError')))):
+        got = val[0][1][1] if val[0][1][0] == 'F' else f'{val[0][1][1]} ({val[0][1][2]})'
+        return ('class', 'public-x-with-|x|^(len-1)>=2^63:wrong-value-or-TypeError',
+                f'evaluation at the PUBLIC point x = {x} of a share of length {len(a)} over GF({p}) gives {got}, gfpx and evaluation at the secret point give {e} '
+                f'(x is not reduced modulo p and np.vander computes its powers in int64 / uint64 / float)')
     return m
 
 
@@ -1131,7 +1138,7 @@ def ck_gf2_value(args, val, exc):
 
 
 def in_gf2_value(tier):
-    yield from filter(_not_both_empty, all_pairs(2, T(tier, 3, 4), 2))
+    yield from (x for x in all_pairs(2, T(tier, 3, 4), 2) if x[1] or trim(x[2]))          # not (empty share against the zero polynomial): see compare_empty
 
 
 def body_ndarray_left(c, p, a, b):
@@ -1154,10 +1161,10 @@ def _nd_want(p, a, b):
 def ck_ndarray_left(args, val, exc):
     p, a, b = args
     msg = compare(val, exc, _nd_want(p, a, b))
-    if msg and not exc and trim(a) and not compare(val, None, _nd_want(p, b, a)):
-        return ('class', 'int-array-left-operand:operands-swapped',
-                'an int array as LEFT operand of // % divmod < <= > >= is evaluated with the operands swapped (SecureObject.__array_ufunc__ of mpyc/sectypes.py calls op(inputs[1], inputs[0]) '
-                f'for every operator but - / **): {msg}')
+    if msg and not exc and trim(a) and not compare(val[3:], None, _nd_want(p, a, b)[3:]) and not compare(val[:3], None, _nd_want(p, b, a)[:3]):
+        return ('class', 'int-array-left-operand-of-//-%-divmod:operands-swapped',
+                'an int array as LEFT operand of // % divmod is evaluated with the operands swapped (SecureObject.__array_ufunc__ of mpyc/sectypes.py calls op(inputs[1], inputs[0]) '
+                f'for floor_divide, remainder and divmod; the comparisons are reflected correctly): {msg}')
     return msg
 
 
@@ -1183,8 +1190,8 @@ def in_irr_zero(tier):
 NATIVE = {}
 
 
-def _add(name, meth, body, check, inputs, bound):
-    n = Native(name, FN + meth, mk_call(body), check, inputs, bound, module='contracts.secpols_native')
+def _add(name, meth, body, check, inputs, bound, limit=None):
+    n = Native(name, meth if meth.startswith('mpyc.') else FN + meth, mk_call(body, limit), check, inputs, bound, module='contracts.secpols_native')
     assert name not in NATIVE
     NATIVE[name] = n
     return n
@@ -1198,22 +1205,22 @@ _add('construct', '__init__,copy,__pos__,_input,_output', body_construct, ck_con
      'int array (also unreduced residues, object dtype), secure array, GFpX value (share length deg+1), copy, +f, mpc.input, mpc.output of lists, '
      'secret zero z = f*g - g*f: z, z+f, f+z, f-z, (z+f)*g, (z+f)(1); opened value and share length')
 _add('ring', '__add__,__sub__,__mul__,__neg__,__radd__,__rsub__,__rmul__,add,sub,mul', body_ring, ck_ring, in_ring,
-     'all pairs of shares of length <= 3 over GF(2), <= 2 over GF(3) (thorough 4 / 3, and <= 2 over GF(5)) + 60 (240) sampled pairs of length 1..9 per p in {5,7,31,257} ('
+     'all pairs of shares of length <= 4 over GF(2) (thorough 5), <= 3 over GF(3), <= 2 over GF(5) (thorough 2 x 3) + 100 (400) sampled pairs of length 1..9 per p in {5,7,31,257} ('
      + SPEC + '); secret-secret, public GFpX / int array / secure array on either side; value vs GFpX and reference implementation, share lengths max / sum-1')
 _add('shift', '__lshift__,__rshift__,truncate,__getitem__', body_shift, ck_shift, in_singles_free,
      'all shares of length <= 5 (p=2), 4 (p=3), 2 (p=5) (thorough 7 / 5 / 3) + 30 (120) sampled shares of length 1..9 per p in {5,7,31,257}; << by 0,1,2,5; >> and truncate by 0,1,2,len,len+2; f[i] up to len+3')
 _add('divmod', '__floordiv__,__mod__,__divmod__,mod,__rfloordiv__,__rmod__,__rdivmod__', body_div, ck_div, in_div,
-     'b != 0; all pairs of shares of length <= 2 over GF(3) and GF(5) (thorough: dividends of length 3 over GF(5), length <= 2 over GF(7)) + 70 (280) sampled pairs per p in {5,7,31,257} of length 1..min(9,p-1) ('
-     + SPEC + '); f//g, f%g, divmod, mod(), public GFpX dividend / divisor, int array dividend, secure array divisor, f == (f//g)*g + f%g; ' + DEG)
+     'b != 0; all pairs of shares of length <= 2 over GF(3) (all operand forms) and GF(5) (secret operands only; thorough also dividends of length 3 over GF(5), length <= 2 over GF(7)) + 70 (280) sampled pairs per p in {5,7,31,257} of length 1..min(9,p-1), all operand forms ('
+     + SPEC + '); f//g, f%g, divmod, mod(), public GFpX dividend / divisor, int array divisor, secure array dividend / divisor, f == (f//g)*g + f%g; ' + DEG)
 _add('gcd', 'gcd', body_gcd, ck_gcd, in_gcd,
-     'not both operands zero; all pairs of shares of length <= 2 over GF(3), GF(5) (thorough GF(7)) + 60 (240) sampled pairs per p in {5,7,31,257} of length 1..min(9,p-1) (' + SPEC + '); both operand orders; ' + DEG)
+     'not both operands zero; all pairs of shares of length <= 2 over GF(3), GF(5) (thorough GF(7)) + 100 (400) sampled pairs per p in {5,7,31,257} of length 1..min(9,p-1) (' + SPEC + '); both operand orders; ' + DEG)
 _add('gcdext', 'gcdext', body_gcdext, ck_gcdext, in_gcdext,
-     'pairs with gcd of degree 0 (incl. one operand zero and the other a nonzero constant): all such pairs of shares of length 1..2 over GF(3), GF(5) (thorough GF(7)) + the coprime ones of 60 (240) sampled pairs per p in {5,7,31,257}; '
+     'pairs with gcd of degree 0 (incl. one operand zero and the other a nonzero constant): all such pairs of shares of length 1..2 over GF(3), GF(5) (thorough GF(7)) + the coprime ones of 120 (480) sampled pairs per p in {5,7,31,257}; '
      'd = monic gcd, Bezout identity, (u, v) equal to gfpx gcdext; ' + DEG)
 _add('invert', 'invert', body_invert, ck_invert, in_invert,
-     'b != 0 and gcd(a, b) = 1 ("Inverse is assumed to exist"): all such pairs of shares of length 1..2 over GF(3), GF(5) + those of 60 (240) sampled pairs per p in {5,7,31,257}; equal to gfpx invert (which the contract checks to be the reduced inverse); ' + DEG)
+     'b != 0 and gcd(a, b) = 1 ("Inverse is assumed to exist"): all such pairs of shares of length 1..2 over GF(3), GF(5) + those of 120 (480) sampled pairs per p in {5,7,31,257}; equal to gfpx invert (which the contract checks to be the reduced inverse); ' + DEG)
 _add('powmod', 'powmod', body_powmod, ck_powmod, in_powmod,
-     'b != 0; n in {0,1,2,3,5,-1,-2} (thorough {0..7,11,-1,-2,-3,-5}), negative n only for gcd(a,b) = 1, n = 1 only for deg a < deg b (see powmod_n1); all pairs of shares of length 1..2 over GF(5), GF(7) and '
+     'b != 0; n in {0,1,2,3,5,-1,-2} (thorough {0..7,11,-1,-2,-3,-5}), negative n only for gcd(a,b) = 1, n = 1 only for deg a < deg b (see powmod_n1); all pairs of shares of length 1..2 over GF(5) with n in {0,1,2,3,-1} (thorough: all n, and GF(7)) and '
      '40 (160) sampled pairs per p in {7,31,257}, kept when every intermediate product has length < p; constant modulus 3 over GF(5), GF(31), GF(257)')
 _add('pow', '__pow__', body_pow, ck_pow, in_pow,
      'all shares of length <= 4 over GF(2), <= 3 over GF(3) + 12 (48) sampled shares per p in {5,7,31,257} of length <= 5 (9); f ** n for n in {0,1,2,3,5}; n in {-1,-3} must raise ValueError')
@@ -1224,24 +1231,24 @@ _add('degree_reverse_monic', 'degree,reverse,monic', body_degree, ck_degree, in_
      'all shares of length <= 2 (p=2), 3 (p=3, p=5; thorough 5 for p=5, 3 for p=7) + 40 (160) sampled shares of length 1..9 per p in {7,31,257} + 4 shares of length 7 over GF(7); degree(), reverse(), reverse(d) for public d in -1..len+1 '
      '(length <= p); for length < p also secret d in -1..len-1 as SecFld and SecInt(16) element, monic() of nonzero polynomials (see monic_zero), degree of f*f')
 _add('compare', '__lt__,__le__,__eq__,__ne__,__ge__,__gt__', body_cmp, ck_cmp, in_cmp,
-     'not both shares empty (see compare_empty); all pairs of shares of length <= 2 over GF(2), GF(3), GF(5) (thorough: length 3 over GF(5), GF(7)) + 60 (240) sampled pairs per p in {5,7,31,257} of length 1..min(9,p-1) + 20 (80) pairs of length <= 6 '
-     'over GF(2), GF(3), GF(5); == and != for every length, < <= > >= (secret-secret, public GFpX on either side) for lengths < p; truth value = GFpX comparison = order of the base-p encodings; results must be secure field elements')
+     'not both shares empty (see compare_empty); all pairs of shares of length <= 2 over GF(2), GF(3) (all operand forms), GF(5) (secret operands only; thorough: length 3 over GF(5), GF(7)) + 60 (240) sampled pairs per p in {5,7,31,257} of length 1..min(9,p-1) + 20 (80) pairs of length <= 6 '
+     'over GF(2), GF(3), GF(5); == and != for every length, < <= > >= (secret-secret, public GFpX on either side, int array on the right) for lengths < p; truth value = GFpX comparison = order of the base-p encodings; results must be secure field elements')
 _add('is_irreducible', 'is_irreducible', body_irr, ck_irr, in_irr,
      'all shares of length <= 2 (p=3), 3 (p=5), 3 (p=7; thorough 4) + 30 (150) sampled shares per p in {7,31,257} of length 2..min(9, longest with all intermediate products < p) + 9 fixed polynomials, EXCEPT irreducible polynomials of degree <= (len-1)//2 '
      '(see irreducible_leading_zeros); vs GFpX.is_irreducible and trial division')
 _add('select', 'if_else,if_swap', body_select, ck_select, in_select,
      'all pairs of shares of length <= 2 x 3 over GF(2), <= 2 over GF(3) + 25 (100) sampled pairs of length 1..9 per p in {5,7,31,257}; condition 0/1 as secure field element, bool, int, and the secret f == g / f != g; equal and unequal lengths')
 _add('length_public', '(all operators)', body_lengths, ck_lengths, in_lengths,
-     'per p in {2,3,5,7,31,257}: lengths (la, lb) in 0..4 x 1..3 (thorough 0..7 x 1..5); every operator is run on up to 25 pairs of shares of the same lengths (all ones, top coefficient cleared / set, x^(len-1)): the share lengths of all results '
+     'per p in {2,3,5,7,31,257}: lengths (la, lb) in 0..4 x 1..3 (thorough 0..7 x 1..5); every operator is run on up to 12 pairs of shares of the same lengths (sampled, all ones, top coefficient cleared, x^(len-1)): the share lengths of all results '
      'must be the same (function of the public lengths only); degree, comparisons, f[i], f(x), is_irreducible must return secure objects')
 _add('errors', '__init__,_coerce,reverse,__getitem__', body_errors, ck_errors, in_errors,
      'p in {2,3,5,7,31,257}, shares (0,), (1,), (0,1), (1,0,1): ints, lists, tuples, secure field elements as value / operand -> TypeError; operands over another field -> TypeError; reverse(-2) -> ValueError; negative / non-int / slice index -> '
      'IndexError; bool(f), hash(f) -> TypeError; f ** -1 -> ValueError')
 # ---- classes of failing inputs on the unchanged tree
 _add('monic_zero', 'monic', body_monic_zero, ck_monic_zero, in_monic_zero,
-     'zero polynomial: empty share and shares (0,)*n for (p, n) in {(31,1), (5,2), (257,3)} (thorough also (7,4), (31,9)); documented: "Zero polynomial remains unchanged"')
-_add('gcd_zero_zero', 'gcd', body_gcd_zero, ck_gcd_zero('gcd'), in_gcd_zero, 'gcd(0, 0) for share lengths (0,0), (1,0), (2,1), (3,3); gfpx: 0')
-_add('gcdext_zero_zero', 'gcdext', body_gcdext_zero, ck_gcd_zero('gcdext'), in_gcd_zero, 'gcdext(0, 0) for share lengths (0,0), (1,0), (2,1), (3,3); d = 0 and the Bezout identity')
+     'zero polynomial: empty share and shares (0,)*n for (p, n) in {(31,1), (5,2), (257,3)} (thorough also (7,4), (31,9)); documented: "Zero polynomial remains unchanged"', limit=HANG_LIMIT_S)
+_add('gcd_zero_zero', 'gcd', body_gcd_zero, ck_gcd_zero('gcd'), in_gcd_zero, 'gcd(0, 0) for share lengths (0,0), (1,0), (2,1), (3,3); gfpx: 0', limit=HANG_LIMIT_S)
+_add('gcdext_zero_zero', 'gcdext', body_gcdext_zero, ck_gcd_zero('gcdext'), in_gcd_zero, 'gcdext(0, 0) for share lengths (0,0), (1,0), (2,1), (3,3); d = 0 and the Bezout identity', limit=HANG_LIMIT_S)
 _add('gcdext_common_factor', 'gcdext', body_gcdext, ck_gcdext, in_gcdext_common,
      'pairs with a common factor of degree >= 1 (equal operands, one operand zero, one a multiple of the other, ...): all such pairs of shares of length 1..2 over GF(3), GF(5) + those of 150 (600) sampled pairs per p in {5,7,31,257}; '
      'd = monic gcd and the Bezout identity are demanded; (u, v) equal to gfpx gcdext is demanded as well (property text: same results as gfpx)')
@@ -1257,9 +1264,10 @@ _add('compare_empty', '__lt__,__le__,__eq__,__ne__,__ge__,__gt__', lambda c, p: 
 _add('irreducible_zero', 'is_irreducible', body_irr, ck_irr_zero, in_irr_zero, 'zero polynomial with a share of length n: (p, n) in {(5,3), (7,3), (31,3), (31,6), (257,9)}; gfpx: False')
 _add('gf2_gfpx_value', '__init__', body_gf2_value, ck_gf2_value, in_gf2_value,
      'GF(2): all pairs of shares of length <= 3 x 2 (thorough 4 x 2), not both empty; GFpX(2) polynomial as constructor value and as public operand of + - * == !=')
-_add('ndarray_left_operand', '__rfloordiv__,__rmod__,__rdivmod__,__gt__,__ge__,__lt__,__le__', body_ndarray_left, ck_ndarray_left, in_ndarray_left,
-     'int array as LEFT operand, a != 0, b != 0: all such pairs of shares of length 1..2 over GF(5) + 20 (80) sampled pairs per p in {7,31,257}; // % divmod < <= > >= == !=')
+_add('ndarray_left_operand', 'mpyc.sectypes.SecureObject.__array_ufunc__', body_ndarray_left, ck_ndarray_left, in_ndarray_left,
+     'int array as LEFT operand, a != 0, b != 0: all such pairs of shares of length 1..2 over GF(5) + 20 (80) sampled pairs per p in {7,31,257}; // % divmod (listed class) and < <= > >= == != (must be right)')
 
+HANG_NATIVES = ('monic_zero', 'gcd_zero_zero', 'gcdext_zero_zero')          # every failing case costs CALL_LIMIT_S seconds: one pool task each
 FINDING_NATIVES = ('monic_zero', 'gcd_zero_zero', 'gcdext_zero_zero', 'gcdext_common_factor', 'evaluate_large_x', 'powmod_n1', 'irreducible_leading_zeros', 'compare_empty',
                    'irreducible_zero', 'gf2_gfpx_value', 'ndarray_left_operand')
 
